@@ -53,6 +53,35 @@ pub open spec fn acc(v: Seq<Seq<u8>>, idx: Seq<int>, n: nat) -> Seq<u8>
 '''
 
 
+def walk_loops(COMMON, ST_J, ST_S, PUSH):
+    """loop annotations shared by enc_into (V-ENCINTO) and enc_indices (V-ENCIDX): the two walks of RFC 6330 5.3.5.3.
+    ST_J / ST_S: invariant clause tying the tracked exec state (dest / trace) to the ghost index sequence idx inside the LT loop / PI loop;
+    PUSH(x): proof text run after `idx = idx.push(x)` (oi is the sequence before the push)"""
+    return {
+             0: {'spec': 'invariant ' + COMMON + ' (b as int) < w as int, b as int == orbit(b0, a as int, w as int, verif_j as int - 1), idx.len() == verif_j as int, 1 <= verif_j, verif_j <= d,'
+                         ' forall |j: int| 0 <= j < verif_j as int ==> #[trigger] idx[j] == orbit(b0, a as int, w as int, j), ' + ST_J + ',',
+                 'body_top': 'proof { lemma_orbit_step(b0, a as int, w as int, verif_j as int - 1); }',
+                 'body_bottom': 'proof { let oi = idx; idx = idx.push(b as int); assert forall |j: int| 0 <= j < verif_j as int + 1 implies #[trigger] idx[j] == orbit(b0, a as int, w as int, j) by { if j < verif_j as int { assert(idx[j] == oi[j]); } } ' + PUSH('b as int') + ' }'},
+             1: {'spec': 'invariant ' + COMMON + ' (b1 as int) < p1 as int, gk >= 0, b1 as int == orbit(b10, a1 as int, p1 as int, gk), forall |j: int| 0 <= j < gk ==> #[trigger] orbit(b10, a1 as int, p1 as int, j) >= p as int,',
+                 'body_top': 'proof { lemma_orbit_step(b10, a1 as int, p1 as int, gk); }',
+                 'body_bottom': 'proof { gk = gk + 1; }'},
+             2: {'before': 'proof { let oi = idx; idx = idx.push(w as int + b1 as int); ks = ks.push(gk); ' + PUSH('w as int + b1 as int') + ' }',
+                 'spec': 'invariant ' + COMMON + ' (b1 as int) < p as int, gk >= 0, b1 as int == orbit(b10, a1 as int, p1 as int, gk), idx.len() == d as int + verif_s as int, ks.len() == verif_s as int, 1 <= verif_s, verif_s <= d1, ks[verif_s as int - 1] == gk,'
+                         ' forall |j: int| 0 <= j < d as int ==> #[trigger] idx[j] == orbit(b0, a as int, w as int, j),'
+                         ' forall |s: int| 0 <= s < verif_s as int ==> #[trigger] idx[d as int + s] == w as int + orbit(b10, a1 as int, p1 as int, ks[s]) && pi_pos_ok(b10, a1 as int, p as int, p1 as int, if s == 0 { 0 } else { ks[s - 1] + 1 }, ks[s]),'
+                         ' ' + ST_S + ',',
+                 'body_top': 'let ghost from = gk + 1; proof { lemma_orbit_step(b10, a1 as int, p1 as int, gk); }',
+                 'body_bottom': ('proof { let oi = idx; let oks = ks; idx = idx.push(w as int + b1 as int); ks = ks.push(gk); ' + PUSH('w as int + b1 as int') +
+                                 ' assert forall |j: int| 0 <= j < d as int implies #[trigger] idx[j] == orbit(b0, a as int, w as int, j) by { assert(idx[j] == oi[j]); }'
+                                 ' assert forall |s: int| 0 <= s < verif_s as int + 1 implies #[trigger] idx[d as int + s] == w as int + orbit(b10, a1 as int, p1 as int, ks[s]) && pi_pos_ok(b10, a1 as int, p as int, p1 as int, if s == 0 { 0 } else { ks[s - 1] + 1 }, ks[s]) by {'
+                                 '   if s < verif_s as int { assert(idx[d as int + s] == oi[d as int + s]); assert(ks[s] == oks[s]); if s > 0 { assert(ks[s - 1] == oks[s - 1]); } } else { assert(ks[s - 1] == oks[s - 1]); } } }')},
+             3: {'before': 'proof { gk = gk + 1; }',
+                 'spec': 'invariant ' + COMMON + ' (b1 as int) < p1 as int, gk >= from, from >= 1, b1 as int == orbit(b10, a1 as int, p1 as int, gk), forall |j: int| from <= j < gk ==> #[trigger] orbit(b10, a1 as int, p1 as int, j) >= p as int,',
+                 'body_top': 'proof { lemma_orbit_step(b10, a1 as int, p1 as int, gk); }',
+                 'body_bottom': 'proof { gk = gk + 1; }'},
+    }
+
+
 def build():
     u = VUnit('V-ENCINTO')
     u.raw(common.PRELUDE)
@@ -96,34 +125,13 @@ impl SymbolSlab {
                    'source_tuple.3 == 2 || source_tuple.3 == 3', '1 <= source_tuple.4 && (source_tuple.4 as int) < p1_of(%s)' % K, '(source_tuple.5 as int) < p1_of(%s)' % K],
          ensures=['exists |idx: Seq<int>, ks: Seq<int>| #[trigger] enc_idx_ok(idx, ks, source_tuple, w_of(%s), p_of(%s), p1_of(%s))'
                   ' && final(dest)@ == acc(view(*intermediate_symbols), idx, (source_tuple.0 + source_tuple.3) as nat)' % (K, K, K)],
-         subst=[('for _ in 1..d {', 'for verif_j in 1..d {', 'name-loop-var'), ('for _ in 1..d1 {', 'for verif_s in 1..d1 {', 'name-loop-var')],
+         resubst=[(r'for _ in ', lambda m, names=iter(['verif_j', 'verif_s', 'verif_x2', 'verif_x3']): 'for %s in ' % next(names), 'name-loop-var')],
          inserts=[('dest.copy_from_slice(intermediate_symbols.get(b as usize));', 'before',
                    'let ghost b0 = b as int; let ghost b10 = b1 as int; proof { lemma_orbit_zero(b0, a as int, w as int); lemma_orbit_zero(b10, a1 as int, p1 as int); }'),
                   ('dest.copy_from_slice(intermediate_symbols.get(b as usize));', 'after',
                    'let ghost mut idx: Seq<int> = seq![b0]; let ghost mut ks: Seq<int> = Seq::empty(); let ghost mut gk: int = 0;')],
-         loops={
-             0: {'spec': 'invariant ' + COMMON + ' (b as int) < w as int, b as int == orbit(b0, a as int, w as int, verif_j as int - 1), idx.len() == verif_j as int, 1 <= verif_j, verif_j <= d,'
-                         ' forall |j: int| 0 <= j < verif_j as int ==> #[trigger] idx[j] == orbit(b0, a as int, w as int, j), dest@ == acc(%s, idx, verif_j as nat),' % VIEW,
-                 'body_top': 'proof { lemma_orbit_step(b0, a as int, w as int, verif_j as int - 1); }',
-                 'body_bottom': 'proof { let oi = idx; idx = idx.push(b as int); assert forall |j: int| 0 <= j < verif_j as int + 1 implies #[trigger] idx[j] == orbit(b0, a as int, w as int, j) by { if j < verif_j as int { assert(idx[j] == oi[j]); } } lemma_acc_push(%s, oi, b as int); }' % VIEW},
-             1: {'spec': 'invariant ' + COMMON + ' (b1 as int) < p1 as int, gk >= 0, b1 as int == orbit(b10, a1 as int, p1 as int, gk), forall |j: int| 0 <= j < gk ==> #[trigger] orbit(b10, a1 as int, p1 as int, j) >= p as int,',
-                 'body_top': 'proof { lemma_orbit_step(b10, a1 as int, p1 as int, gk); }',
-                 'body_bottom': 'proof { gk = gk + 1; }'},
-             2: {'before': 'proof { let oi = idx; idx = idx.push(w as int + b1 as int); ks = ks.push(gk); lemma_acc_push(%s, oi, w as int + b1 as int); }' % VIEW,
-                 'spec': 'invariant ' + COMMON + ' (b1 as int) < p as int, gk >= 0, b1 as int == orbit(b10, a1 as int, p1 as int, gk), idx.len() == d as int + verif_s as int, ks.len() == verif_s as int, 1 <= verif_s, verif_s <= d1, ks[verif_s as int - 1] == gk,'
-                         ' forall |j: int| 0 <= j < d as int ==> #[trigger] idx[j] == orbit(b0, a as int, w as int, j),'
-                         ' forall |s: int| 0 <= s < verif_s as int ==> #[trigger] idx[d as int + s] == w as int + orbit(b10, a1 as int, p1 as int, ks[s]) && pi_pos_ok(b10, a1 as int, p as int, p1 as int, if s == 0 { 0 } else { ks[s - 1] + 1 }, ks[s]),'
-                         ' dest@ == acc(%s, idx, (d as int + verif_s as int) as nat),' % VIEW,
-                 'body_top': 'let ghost from = gk + 1; proof { lemma_orbit_step(b10, a1 as int, p1 as int, gk); }',
-                 'body_bottom': ('proof { let oi = idx; let oks = ks; idx = idx.push(w as int + b1 as int); ks = ks.push(gk); lemma_acc_push(%s, oi, w as int + b1 as int);'
-                                 ' assert forall |j: int| 0 <= j < d as int implies #[trigger] idx[j] == orbit(b0, a as int, w as int, j) by { assert(idx[j] == oi[j]); }'
-                                 ' assert forall |s: int| 0 <= s < verif_s as int + 1 implies #[trigger] idx[d as int + s] == w as int + orbit(b10, a1 as int, p1 as int, ks[s]) && pi_pos_ok(b10, a1 as int, p as int, p1 as int, if s == 0 { 0 } else { ks[s - 1] + 1 }, ks[s]) by {'
-                                 '   if s < verif_s as int { assert(idx[d as int + s] == oi[d as int + s]); assert(ks[s] == oks[s]); if s > 0 { assert(ks[s - 1] == oks[s - 1]); } } else { assert(ks[s - 1] == oks[s - 1]); } } }') % VIEW},
-             3: {'before': 'proof { gk = gk + 1; }',
-                 'spec': 'invariant ' + COMMON + ' (b1 as int) < p1 as int, gk >= from, from >= 1, b1 as int == orbit(b10, a1 as int, p1 as int, gk), forall |j: int| from <= j < gk ==> #[trigger] orbit(b10, a1 as int, p1 as int, j) >= p as int,',
-                 'body_top': 'proof { lemma_orbit_step(b10, a1 as int, p1 as int, gk); }',
-                 'body_bottom': 'proof { gk = gk + 1; }'},
-         },
+         loops=walk_loops(COMMON, 'dest@ == acc(%s, idx, verif_j as nat)' % VIEW, 'dest@ == acc(%s, idx, (d as int + verif_s as int) as nat)' % VIEW,
+                          lambda x: 'lemma_acc_push(%s, oi, %s);' % (VIEW, x)),
          append='proof { assert(b0 == source_tuple.2 as int && b10 == source_tuple.5 as int && a == source_tuple.1 && a1 == source_tuple.4 && d == source_tuple.0 && d1 == source_tuple.3); assert(idx.len() == d + d1 && ks.len() == d1 as int); assert(enc_idx_ok(idx, ks, source_tuple, w_of(%s), p_of(%s), p1_of(%s))); }' % (K, K, K))
     u.raw("""
 pub proof fn lemma_acc_push(v: Seq<Seq<u8>>, idx: Seq<int>, x: int)
